@@ -917,10 +917,10 @@ func randomOp(r *rand.Rand, pos int, kts []string) ROp {
 		o.Sfx = r.Float64() >= 0.15
 	}
 
-	kinds := []string{"addkey", "addkey", "remkey", "replace", "addmem", "remmem", "addkey_remmem", "remmem_replace", "renmem"}
+	kinds := []string{"addkey", "addkey", "remkey", "replace", "addmem", "remmem", "addkey_remmem", "remmem_replace", "renmem_addkey"}
 	o.Delta = Delta{K: kinds[r.Intn(len(kinds))], I: 1 + r.Intn(3)}
 
-	if o.Delta.K == "addmem" || o.Delta.K == "remmem" || o.Delta.K == "renmem" {
+	if o.Delta.K == "addmem" || o.Delta.K == "remmem" {
 		o.Delta.I = 1 + r.Intn(2)
 	}
 
